@@ -87,6 +87,12 @@ pub trait Prop: Sync + Send {
     fn fully_exhaustive(&self) -> bool {
         false
     }
+    /// optional tight-loop sweep of a very large enumerated sub-domain that
+    /// bypasses the per-case bookkeeping: returns (cases evaluated, non-trivial
+    /// cases, first failing case).  The failing case is re-run through `run`.
+    fn bulk(&self, _tier: Tier, _shard: usize, _nshards: usize) -> Option<(u64, u64, Option<Self::Case>)> {
+        None
+    }
 }
 
 pub fn verif_root() -> PathBuf {
@@ -238,6 +244,24 @@ fn run_shard<P: Prop>(
             }
         };
         prop.enumerate(opts.tier, shard, opts.shards, &mut f);
+    }
+    if violation.is_none() && !stop.load(Ordering::Relaxed) {
+        if let Some((n, nt, bad)) = prop.bulk(opts.tier, shard, opts.shards) {
+            {
+                let mut s = st.borrow_mut();
+                s.evaluations += n;
+                s.enumerated += n;
+                s.nontrivial_enum += nt;
+            }
+            if let Some(case) = bad {
+                let res = safe_run(prop, &case);
+                let fs: Vec<Failure> = unknown_failures(prop.id(), known, &res).into_iter().cloned().collect();
+                if !fs.is_empty() {
+                    violation = Some((case, fs));
+                    stop.store(true, Ordering::Relaxed);
+                }
+            }
+        }
     }
     if violation.is_some() {
         return ShardOut { st: st.into_inner(), violation, aborted: None };
